@@ -89,6 +89,14 @@ def make_cfg(seed, i):
             if r() < 0.5:
                 up["restarts.hard.use_old_rk"] = False
         cfg["args"]["rhoend"] = float(0.3 * margin * 1e-2)
+        if up.get("restarts.use_soft_restarts", True) and r() < 0.5:
+            # soft restarts that add points: the only evaluations made outside the trust-region / geometry / initialisation code
+            up["restarts.increase_npt"] = True
+            up["restarts.max_npt"] = int(n + 1 + rng.integers(1, 4))
+            if r() < 0.5:
+                up["restarts.increase_npt_amt"] = 2
+            cfg["args"]["maxfun"] = int(gen.pick(rng, [30, 45]))
+            cfg["args"]["rhoend"] = float(0.3 * margin * 10.0 ** rng.uniform(-1.5, -0.5))
     return cfg
 
 
